@@ -892,15 +892,30 @@ def r13(R):
 
 
 # ----------------------------------------------------------------- C13.R14
-@rule('C13.R14', 'two blob files are reported to hold the same bytes only '
-      'after every chunk read from one has been compared equal with the '
-      'corresponding chunk of the other', props=['C06', 'C03'],
+@rule('C13.R14', 'two blob files are reported to hold the same (or other) '
+      'bytes only after every chunk read from one has been compared with '
+      'the corresponding chunk of the other', props=['C06', 'C03'],
       min_instances=1)
 def r14(R):
-    cls = R.prog.cls(FS)
-    f = R.method(cls, '_blob_same_bytes')
+    n = 0
+    for cq in (FS, BLOBSTORAGE):
+        cls = R.prog.cls(cq)
+        done = set()
+        for k in R.prog.mro(cls):
+            if not hasattr(k, 'methods'):
+                continue
+            for name, f in sorted(k.methods.items()):
+                if name in done or not compares_file_bytes(f.node):
+                    continue
+                done.add(name)
+                n += 1
+                _same_bytes(R, cls, f)
+    R.require(n >= 1, 'no byte comparison of blob files found')
+
+
+def _same_bytes(R, cls, f):
     g, b, F = R.cfg(f, cls, max_depth=0)
-    R.instance('FileStorage._blob_same_bytes')
+    R.instance('%s.%s' % (cls.name, f.name))
 
     def is_read(e):
         return isinstance(e, ast.Call) and isinstance(
@@ -908,19 +923,17 @@ def r14(R):
 
     def edge(node, st, lab, tgt):
         if node.kind == 'test' and lab in ('T', 'F'):
-            for e, truth in implied_atoms(node.ast, lab):
-                if isinstance(e, ast.Compare) and len(e.ops) == 1 and \
-                        isinstance(e.ops[0], (ast.Eq, ast.NotEq)):
-                    sides = [e.left, e.comparators[0]]
+            for x in ast.walk(node.ast):
+                if isinstance(x, ast.Compare) and len(x.ops) == 1 and \
+                        isinstance(x.ops[0], (ast.Eq, ast.NotEq)):
+                    sides = [x.left, x.comparators[0]]
                     names = {s_.id for s_ in sides
                              if isinstance(s_, ast.Name)}
                     reads = [s_ for s_ in sides if is_read(s_)]
                     if (names & st) and (len(names & st) == 2 or reads):
-                        if isinstance(e.ops[0], ast.Eq) == truth:
-                            return frozenset()     # this chunk is equal
-                        return st
+                        return frozenset()     # this chunk was compared
         if lab in ('e', 'eb'):
-            return st
+            return frozenset()      # an I/O failure is another answer
         for op in F.ops(node):
             if op.kind == 'store' and op.path and op.path[0] == '%local':
                 v = store_value(op)
@@ -932,17 +945,118 @@ def r14(R):
 
     def at(node, st):
         if node.kind == 'return' and st and isinstance(
-                node.ast.value, ast.Constant) and node.ast.value.value is True:
+                node.ast.value, ast.Constant) and isinstance(
+                    node.ast.value.value, bool):
             return Violation(
-                '_blob_same_bytes answers "same bytes" with the chunk in '
-                '`%s` not compared with the other file: when the first file '
-                'ends (empty, or a multiple of the chunk size long) a longer '
-                'second file that merely starts with its bytes counts as '
-                'equal, and undo accepts to discard what a later '
-                'transaction appended' % ', '.join(sorted(st)))
+                '%s answers %r with the chunk in `%s` not compared with the '
+                'other file: when the first file ends (empty, or a multiple '
+                'of the chunk size long) a longer second file that merely '
+                'starts with its bytes counts as the same, and undo accepts '
+                'to discard what a later transaction appended' % (
+                    f.name, node.ast.value.value, ', '.join(sorted(st))))
         return st
 
     vs, stats = explore(g, frozenset(), at=at, edge=edge)
+    R.count(stats)
+    for v in vs:
+        R.violation(v.node, v.message, g, v.path)
+
+
+# ----------------------------------------------------------------- C13.R15
+def compares_file_bytes(fnode):
+    """The function reads from (at least) two opened files and compares
+    what it read."""
+    opens = sum(1 for c in ast.walk(fnode) if isinstance(c, ast.Call) and
+                isinstance(c.func, ast.Name) and c.func.id == 'open')
+    if opens < 2:
+        return False
+    readvars = {t.id for s in ast.walk(fnode) if isinstance(s, ast.Assign)
+                and isinstance(s.value, ast.Call) and isinstance(
+                    s.value.func, ast.Attribute) and
+                s.value.func.attr == 'read'
+                for t in s.targets if isinstance(t, ast.Name)}
+
+    def is_read(e):
+        return (isinstance(e, ast.Call) and isinstance(
+            e.func, ast.Attribute) and e.func.attr == 'read') or (
+                isinstance(e, ast.Name) and e.id in readvars)
+    return any(isinstance(c, ast.Compare) and len(c.ops) == 1 and isinstance(
+        c.ops[0], (ast.Eq, ast.NotEq)) and is_read(c.left) and is_read(
+            c.comparators[0]) for c in ast.walk(fnode))
+
+
+@rule('C13.R15', 'the blob wrapper\'s undo copies an earlier blob file into '
+      'the undo revision only after the bytes of the undone revision were '
+      'compared with the blob\'s current bytes (the data records of a blob '
+      'are all alike: the wrapped storage cannot tell a later change)',
+      props=['C03', 'C06'], min_instances=1)
+def r15(R):
+    cls = R.prog.cls(BLOBSTORAGE)
+    f = R.method(cls, 'undo')
+    g, b, F = R.cfg(f, cls, max_depth=0)
+    comparers = {n for k in R.prog.mro(cls) if hasattr(k, 'methods')
+                 for n, m in k.methods.items()
+                 if compares_file_bytes(m.node)}
+    copies = [0]
+
+    def calls_comparer(x):
+        return isinstance(x, ast.Call) and isinstance(
+            x.func, ast.Attribute) and isinstance(x.func.value, ast.Name) \
+            and x.func.value.id == 'self' and x.func.attr in comparers
+
+    def iter_source(loop):
+        c = [x for x in ast.walk(loop.iter) if isinstance(x, ast.Call)
+             and isinstance(x.func, ast.Attribute)]
+        return c[0].func.attr if c else ast.unparse(loop.iter)
+    loops = [l for l in walk_local(f.node) if isinstance(l, ast.For)]
+    copy_sources = {iter_source(l) for l in loops if any(
+        isinstance(x, ast.Call) and isinstance(x.func, ast.Attribute) and
+        x.func.attr == 'cp' for s_ in l.body for x in ast.walk(s_))}
+    # a loop that checks every blob of the undone transaction (the same
+    # enumeration the copy loop walks): passing it establishes the check,
+    # also with nothing to enumerate -- then nothing is copied either
+    checking = {id(l) for l in loops if iter_source(l) in copy_sources and
+                any(calls_comparer(x) for s_ in l.body
+                    for x in ast.walk(s_))}
+
+    def edge(node, st, lab, tgt):
+        if lab in ('e', 'eb'):
+            return st
+        if node.kind == 'for' and id(node.ast) in checking:
+            return True
+        for op in F.ops(node):
+            if op.kind == 'call' and op.path and len(op.path) == 2 and \
+                    op.path[0] == 'self' and op.path[1] in comparers:
+                st = True
+        return st
+
+    def is_copy(op):
+        return op.kind == 'call' and op.path and (
+            op.path[-1] in ('cp', 'copyfile', 'copy', 'copyfileobj',
+                            'rename_or_copy_blob') or
+            op.path[-1].split('.')[-1] in ('cp', 'copyfile', 'copyfileobj'))
+
+    def at(node, st):
+        for op in F.ops(node):
+            if is_copy(op):
+                if not st:
+                    return Violation(
+                        'BlobStorage.undo copies the blob file of the '
+                        'revision before the undone transaction into the '
+                        'undo revision without any comparison of blob '
+                        'bytes: when a LATER transaction rewrote the blob, '
+                        'the wrapped storage sees identical data records, '
+                        'accepts the undo, and the later bytes are lost')
+        return st
+
+    for nid in g.reachable():
+        for op in F.ops(g.nodes[nid]):
+            if is_copy(op):
+                copies[0] += 1
+    R.instance('BlobStorage.undo', copies=copies[0],
+               byte_comparers=sorted(comparers))
+    R.require(copies[0] >= 1, 'BlobStorage.undo no longer copies blob files')
+    vs, stats = explore(g, False, at=at, edge=edge)
     R.count(stats)
     for v in vs:
         R.violation(v.node, v.message, g, v.path)
